@@ -84,6 +84,11 @@ def eval_point(case):
     # FloatOrNDArray): the form is chosen deterministically per case
     form = (len(c['eng']) + int(bool(c['cruise'])) + int(round(float(fr(c['v'])))) + int(round(float(fr(c['W'])))) // 100) % 3
     cruise = np.array([bool(c['cruise'])]).astype([bool, np.int64, float][form])
+    # ... and every argument may be a plain number instead of a one-element array (the signatures say FloatOrNDArray):
+    # every second case is evaluated with scalars
+    if (int(round(float(fr(c['rocd'])))) + int(round(float(fr(c['W'])))) // 600 + len(c['der'])) % 2 == 1:
+        alt, temp, mass, v, rocd, acc, rho = (float(np.asarray(x).ravel()[0]) for x in (alt, temp, mass, v, rocd, acc, rho))
+        cruise = [bool, int, float][form](bool(c['cruise']))
     em = model.engine_model
     cl = model.calculate_cl(mass, rho, v)
     drag = model.calculate_drag(model.calculate_cd(cl), rho, v)
@@ -94,7 +99,7 @@ def eval_point(case):
         'descent': (em.calculate_descent_thrust_high if float(fr(c['hf'])) * C_TC2 > 15000.0 else em.calculate_descent_thrust_low)(alt, v, temp),
         'thrust': model.calculate_thrust(mass, temp, alt, v, rocd, acc, cruise),
     }
-    sgr = model.calculate_specific_ground_range(mass, temp, alt, v, rocd, acc, cruise, v.copy())
+    sgr = model.calculate_specific_ground_range(mass, temp, alt, v, rocd, acc, cruise, np.copy(v) if isinstance(v, np.ndarray) else v)
     out['ff'] = v / sgr
     return {k: float(np.asarray(x).reshape(-1)[0]) for k, x in out.items()}
 
